@@ -866,6 +866,7 @@ func (r *replicateChannelManager) forwardMsg(targetPChannel string, msg *api.Rep
 	if handler == nil {
 		r.apiEventChan <- &api.ReplicateAPIEvent{
 			EventType: api.ReplicateError,
+			TaskID:    msg.TaskID,
 			Error:     errors.Newf("channel %s not found when forward the msg", targetPChannel),
 		}
 		log.Warn("channel not found when forward the msg",
@@ -1257,7 +1258,8 @@ func (r *replicateChannelHandler) innerHandleReplicateMsg(forward bool, msg *api
 	msgPack := msg.MsgPack
 	defer verifYield("done", msgPack)
 	p := r.handlePack(forward, msgPack, msg.TaskID)
-	if p == api.EmptyMsgPack {
+	// nil means the pack can't be handled, the error event has been sent
+	if p == nil || p == api.EmptyMsgPack {
 		return
 	}
 	p.CollectionID = msg.CollectionID
@@ -1556,7 +1558,7 @@ func (r *replicateChannelHandler) handlePack(forward bool, pack *msgstream.MsgPa
 		}
 		info, err := r.getCollectionTargetInfo(sourceCollectionID)
 		if err != nil {
-			r.sendErrEvent(err)
+			r.sendErrEvent(taskID, err)
 			log.Warn("fail to get collection info", zap.Int64("collection_id", sourceCollectionID), zap.Error(err))
 			return nil
 		}
@@ -1695,7 +1697,7 @@ func (r *replicateChannelHandler) handlePack(forward bool, pack *msgstream.MsgPa
 			}
 		}
 		if err != nil {
-			r.sendErrEvent(err)
+			r.sendErrEvent(taskID, err)
 			log.Warn("fail to process the msg info", zap.Any("msg", msg.Type()), zap.Error(err))
 			return nil
 		}
@@ -1771,7 +1773,7 @@ func (r *replicateChannelHandler) handlePack(forward bool, pack *msgstream.MsgPa
 	generateTS, ok := GetTSManager().UnsafeGetMaxTS(tsManagerChannelKey)
 	if !ok {
 		log.Warn("not found the max ts", zap.String("channel", r.targetPChannel))
-		r.sendErrEvent(fmt.Errorf("not found the max ts"))
+		r.sendErrEvent(taskID, fmt.Errorf("not found the max ts"))
 		return nil
 	}
 	GetTSManager().UnsafeUpdatePackTS(tsManagerChannelKey, newPack.BeginTs, func(newTS uint64) (uint64, bool) {
@@ -1947,9 +1949,10 @@ func copyMsgPositions(positions []*msgpb.MsgPosition) []*msgpb.MsgPosition {
 	return newPositions
 }
 
-func (r *replicateChannelHandler) sendErrEvent(err error) {
+func (r *replicateChannelHandler) sendErrEvent(taskID string, err error) {
 	r.apiEventChan <- &api.ReplicateAPIEvent{
 		EventType: api.ReplicateError,
+		TaskID:    taskID,
 		Error:     err,
 	}
 }
